@@ -282,6 +282,12 @@ func checkC17(p *Prog, r *Report) {
 // ruleRoundTrip: parse(format(c)) == c for every declared constant c of rel.typeName whose name is not shared
 // with a smaller constant (aliases / fallback names are compared for the first constant only).
 func ruleRoundTrip(p *Prog, r *Report, fd *folder, rule, rel, typeName, format, parse string, bytesArg bool) {
+	ruleRoundTripOpt(p, r, fd, rule, rel, typeName, format, parse, bytesArg, false)
+}
+
+// ruleRoundTripOpt: with skipUnnamed, a constant whose formatted name is the formatter's answer for an undeclared
+// value (it has no name of its own, like a zero "unknown" member) is not required to parse back.
+func ruleRoundTripOpt(p *Prog, r *Report, fd *folder, rule, rel, typeName, format, parse string, bytesArg, skipUnnamed bool) {
 	pk := p.LibPkg(rel)
 	if pk == nil {
 		r.Undecided(rule, rel+"."+typeName+" | round trip", "-", "package not found")
@@ -299,11 +305,31 @@ func ruleRoundTrip(p *Prog, r *Report, fd *folder, rule, rel, typeName, format, 
 		r.Undecided(rule, rel+"."+typeName+" | round trip", "-", "anchor "+format+"/"+parse+" not resolved")
 		return
 	}
+	if why, _ := impureWhy(p, pf); why != "" {
+		r.Bad(rule, rel+"."+typeName+" | "+parse+" is a function of the name alone", p.posStr(pf.Pos()), why+": what a name parses to then depends on earlier calls, so no statement about parse(format(c)) holds")
+		return
+	}
 	firstWithName := map[string]string{}
+	fallback, haveFallback := "", false
+	if skipUnnamed {
+		var mx int64
+		for _, c := range declaredConsts(named) {
+			if c.val > mx {
+				mx = c.val
+			}
+		}
+		if fr := fd.fold(ff, []cval{{kind: "int", i: mx + 1}}); fr.panics == "" && fr.undecided == "" {
+			fallback, haveFallback = fr.val.s, true
+		}
+	}
 	for _, c := range declaredConsts(named) {
 		key := fmt.Sprintf("%s.%s | %s(%s(%s))", rel, typeName, parse, format, c.name)
 		at := p.posStr(pf.Pos())
 		fr := fd.fold(ff, []cval{{kind: "int", i: c.val}})
+		if haveFallback && fr.panics == "" && fr.undecided == "" && fr.val.s == fallback {
+			r.OK(rule, key, at, fmt.Sprintf("has no name of its own (formats as %q like an undeclared value)", fallback))
+			continue
+		}
 		if fr.panics != "" {
 			r.Bad(rule, key, at, "formatting panics: "+fr.panics)
 			continue
